@@ -1015,17 +1015,65 @@ def _pin_to_one_cpu():
     """Only one thread of a simulation process ever runs at a time (baton passing), and this world hands the baton
     over ~100 times per execution.  Letting the kernel spread those threads over the cores makes every hand-over a
     cross-core wake-up (measured: 2.4x the wall time, sys > user).  The run server and the children it forks are
-    therefore pinned to one CPU, chosen by pid.  No effect on what a run computes.  VERIF_PIN=0 turns it off."""
+    therefore pinned to one CPU.  Servers running at the same time claim different CPUs (a claim is a file
+    /dev/shm/verif-pin/cpuN holding the pid, created atomically by link(); claims of dead processes are taken over);
+    when every CPU is claimed the process is left unpinned.  No effect on what a run computes.  VERIF_PIN=0 turns it off."""
+    import atexit
     import os
 
     if os.environ.get('VERIF_PIN', '1') == '0':
-        return
+        return None
     try:
         cpus = sorted(os.sched_getaffinity(0))
-        if len(cpus) > 1:
-            os.sched_setaffinity(0, {cpus[os.getpid() % len(cpus)]})
+        if len(cpus) < 2:
+            return None
+        d = '/dev/shm/verif-pin'
+        os.makedirs(d, exist_ok=True)
+        me = os.getpid()
+        tmp = f'{d}/.claim-{me}'
+        with open(tmp, 'w') as f:
+            f.write(str(me))
+        try:
+            for k in range(len(cpus)):
+                cpu = cpus[(me + k) % len(cpus)]
+                path = f'{d}/cpu{cpu}'
+                for _attempt in (0, 1):
+                    try:
+                        os.link(tmp, path)
+                    except FileExistsError:
+                        try:
+                            with open(path) as f:
+                                owner = int(f.read().strip() or '0')
+                            os.kill(owner, 0)
+                            break  # claimed by a live process: next CPU
+                        except (ValueError, ProcessLookupError, FileNotFoundError):
+                            try:
+                                os.unlink(path)  # stale claim
+                            except FileNotFoundError:
+                                pass
+                            continue
+                        except PermissionError:
+                            break
+                    else:
+                        os.sched_setaffinity(0, {cpu})
+
+                        def release(path=path, me=me):
+                            try:
+                                if os.getpid() == me:
+                                    os.unlink(path)
+                            except OSError:
+                                pass
+
+                        atexit.register(release)
+                        return cpu
+        finally:
+            try:
+                os.unlink(tmp)
+            except OSError:
+                pass
     except (AttributeError, OSError):
         pass
+    return None
 
 
 def warmup():
